@@ -529,3 +529,358 @@ def search(ctx, broken):
 
 def replay(ctx, payload):
     pass
+
+
+# ----------------------------------------------------------------------------------------
+# crystals (literal fractional coordinates; am.load('prototype') needs the network)
+# ----------------------------------------------------------------------------------------
+def _system(box, frac, atype=None, symbols=None):
+    import numpy as np
+    import atomman as am
+    frac = np.array(frac, dtype=float)
+    atype = [1] * len(frac) if atype is None else atype
+    atoms = am.Atoms(atype=atype, pos=frac)
+    return am.System(atoms=atoms, box=box, scale=True, symbols=symbols)
+
+
+FCC = [[0, 0, 0], [.5, .5, 0], [.5, 0, .5], [0, .5, .5]]
+BCC = [[0, 0, 0], [.5, .5, .5]]
+DIA = FCC + [[.25, .25, .25], [.75, .75, .25], [.75, .25, .75], [.25, .75, .75]]
+HCP = [[0, 0, 0], [1 / 3, 2 / 3, .5]]
+
+
+def crystals(rng, exact):
+    """(name, ucell, conventional_setting) — small cells of fcc/bcc/diamond/hcp/L1_2/B2/bct, centred primitives."""
+    import atomman as am
+    a = rng.choice([2.0, 4.0, 3.5]) if exact else rng.uniform(2.8, 4.2)
+    c = rng.choice([3.0, 5.0, 6.5]) if exact else a * rng.uniform(1.5, 1.7)
+    out = [
+        ('fcc', _system(am.Box.cubic(a), FCC, symbols=['Al']), 'p'),
+        ('bcc', _system(am.Box.cubic(a), BCC, symbols=['Fe']), 'p'),
+        ('diamond', _system(am.Box.cubic(a), DIA, symbols=['Si']), 'p'),
+        ('L12', _system(am.Box.cubic(a), FCC, atype=[1, 2, 2, 2], symbols=['Au', 'Cu']), 'p'),
+        ('B2', _system(am.Box.cubic(a), BCC, atype=[1, 2], symbols=['Ni', 'Al']), 'p'),
+        ('bct', _system(am.Box.tetragonal(a, c), BCC, symbols=['In']), 'p'),
+        ('hcp', _system(am.Box.hexagonal(a, c), HCP, symbols=['Mg']), 'p'),
+        ('fcc-prim', _system(am.Box(vects=[[a / 2, a / 2, 0], [0, a / 2, a / 2], [a / 2, 0, a / 2]]), [[0, 0, 0]],
+                             symbols=['Al']), 'f'),
+        ('bcc-prim', _system(am.Box(vects=[[a / 2, a / 2, a / 2], [-a / 2, a / 2, -a / 2], [-a / 2, -a / 2, a / 2]]),
+                             [[0, 0, 0]], symbols=['Fe']), 'i'),
+        ('ortho2', _system(am.Box.orthorhombic(a, a * 1.25 if exact else a * 1.21, c), [[0, 0, 0], [.5, .5, .25]],
+                           atype=[1, 2], symbols=['A', 'B']), 'p'),
+    ]
+    return out
+
+
+def _numdec(tol):
+    import numpy as np
+    return - int(np.floor(np.log10(tol)))
+
+
+def _layer_margin_ok(xs, W, tol, numdec):
+    """the model's exact rounding / isclose steps are away from their float-sensitive boundaries."""
+    sc = 10 ** numdec
+    for x in xs:
+        fr = (x * sc) % 1.0
+        if abs(fr - 0.5) < 1e-3:
+            return False
+    s = sorted(xs)
+    gaps = [b - a for a, b in zip(s, s[1:])]
+    if any(tol / 50 < g < 50 * tol for g in gaps):
+        return False
+    d = abs((s[-1] - s[0]) - W)
+    return not (tol / 50 < d < 50 * tol)
+
+
+def _c2p_int(setting):
+    L = _inv([[F(x) for x in r] for r in P2C[setting]])
+    return [[int(x) for x in r] for r in L]
+
+
+def _conv_to_prim(uv_conv, setting):
+    """FreeSurface.uvws (conventional, 3x3 or 3x4 floats) -> primitive 3-index rows as floats."""
+    rows = []
+    L = _c2p_int(setting)
+    for r in uv_conv:
+        if len(r) == 4:
+            r = [2 * r[0] + r[1], 2 * r[1] + r[0], r[3]]
+        rows.append([sum(r[i] * L[i][j] for i in range(3)) for j in range(3)])
+    return rows
+
+
+def _fs_cases(ctx, exact):
+    rng = ctx.rng
+    cr = crystals(rng, exact)
+    small = planes(2)
+    cases = []
+    per = ctx.n(5, 40)
+    for nm, ucell, st in cr:
+        pls = rng.sample(small, per)
+        if nm == 'hcp':
+            pls = [(h, k, -(h + k), l) if i % 2 else (h, k, l) for i, (h, k, l) in enumerate(pls)]
+        for hkl in pls:
+            cases.append((nm, ucell, st, hkl, rng.choice(CUTS)))
+        # planes that admit every cut vector in the cubic/tetragonal/orthorhombic cells
+        for hkl in rng.sample([(1, 0, 0), (0, 1, 0), (0, 0, 1), (0, 0, -1), (1, 1, 0), (1, 1, 1), (0, 1, 1), (1, -1, 0)], 2):
+            if nm == 'hcp':
+                hkl = (0, 0, 0, 1) if hkl[2] else (1, 0, -1, 0)
+            cases.append((nm, ucell, st, hkl, rng.choice(('a', 'b'))))
+    return cases
+
+
+def _correspond_fs(ctx, exact):
+    import numpy as np
+    import atomman as am
+    from atomman.defect import StackingFault
+    rng = ctx.rng
+    nshift = nfault = nref = nsurf = nund = 0
+    for nm, ucell, st, hkl, cut in _fs_cases(ctx, exact):
+        tol = rng.choice([1e-7, 1e-8, 1e-6])
+        hkl3 = hkl if len(hkl) == 3 else (hkl[0], hkl[1], hkl[3])
+        n = _capped(hkl3, st, 3)
+        info = {'op': 'FreeSurface', 'crystal': nm, 'a': float(ucell.box.a), 'c': float(ucell.box.c), 'exact': exact,
+                'hkl': list(hkl), 'cut': cut, 'setting': st, 'maxindex': n, 'tol': tol}
+        vects = ucell.box.vects.tolist()
+        try:
+            sf = StackingFault(list(hkl), ucell, cutboxvector=cut, maxindex=n, conventional_setting=st, tol=tol)
+            impl_err = None
+        except (ValueError, AssertionError) as e:
+            sf, impl_err = None, (_err_class(e), str(e))
+        m = parse_fsb(ctx.driver.ask(fsb_line(vects, hkl, cut, n, st, None)))
+        ctx.stats.case('FreeSurface:' + nm, (nm, tuple(hkl), cut, st, exact, float(ucell.box.a)), nontrivial=sf is not None,
+                       sample=dict(info, refused=impl_err))
+        if 'err' in m:
+            if impl_err is None or impl_err[0] != m['err']:
+                ctx.disagree('FreeSurface:refusal', f'FreeSurface({hkl}, {nm}) {impl_err or "succeeded"} but '
+                             f'free_surface_basis model refuses ({m["err"]})', info)
+            continue
+        aNear, aExact, bNear, bExact, cTie = m['flags']
+        decided = not (aNear or bNear or cTie) if exact else not any(m['flags'])
+        if sf is None:
+            # a refusal must be the documented one: the rotated cell is incompatible with the cut vector
+            if not decided:
+                nund += 1
+                continue
+            nref += 1
+            out = ctx.driver.ask('compat %s %s %s' % (cut, ' '.join(map(str, m['uv3'])), cm.frs(np.array(vects))))
+            flag, *dat = out.split()
+            ab, ac, yzn, aa, bb, cc = [float(F(t)) for t in dat]
+            rel = [abs(ab) / math.sqrt(aa * bb), abs(ac) / math.sqrt(aa * cc)] if cut == 'a' else \
+                [abs(yzn) / (aa * math.sqrt(bb * cc))] if cut == 'b' else [0.0]
+            if any(1e-9 <= r <= 1e-6 for r in rel):
+                continue
+            compat = all(r < 1e-9 for r in rel)
+            if compat or 'box' not in impl_err[1]:
+                ctx.disagree('FreeSurface:refusal', f'FreeSurface({hkl}, {nm}, cut={cut}) raised {impl_err} but the '
+                             f'model accepts the cut vector (uvws {m["uv3"]})', dict(info, model=m['uv3']))
+            continue
+        # ---- uvws -------------------------------------------------------------------------
+        uv_conv = np.asarray(sf.uvws, dtype=float).tolist()
+        prim = _conv_to_prim(uv_conv, st)
+        uv3 = [int(round(x)) for r in prim for x in r]
+        if any(abs(x - i) > 1e-9 for x, i in zip([x for r in prim for x in r], uv3)):
+            ctx.disagree('FreeSurface:uvws', f'FreeSurface({hkl}, {nm}).uvws {uv_conv} are not lattice vectors', info)
+            continue
+        if decided:
+            if uv3 != m['uv3']:
+                ctx.disagree('FreeSurface:uvws', f'FreeSurface({hkl}, {nm}, cut={cut}, setting={st}).uvws -> primitive '
+                             f'{uv3}, model {m["uv3"]}', dict(info, impl=uv3, model=m['uv3']))
+                continue
+            # conventional representation
+            L = _c2p_int(st)
+            want = []
+            for r in range(3):
+                o = ctx.driver.ask('p2c %s %s' % (st, ' '.join(map(str, m['uv3'][3 * r:3 * r + 3]))))
+                want.append(cm.unfrs(o))
+            got3 = [[2 * r[0] + r[1], 2 * r[1] + r[0], r[3]] if len(r) == 4 else r for r in uv_conv]
+            if not all(cm.allclose(g, w, 1e-12, 1e-12) for g, w in zip(got3, want)):
+                ctx.disagree('FreeSurface:uvws-conventional', f'FreeSurface.uvws {uv_conv} vs model {want}', info)
+        else:
+            vo = ctx.driver.ask('valid %s %s %s %s %s %s 1 1000000000' % (
+                cut, st, '-' if n is None else n, ' '.join(map(str, hkl3)), cm.frs(np.array(vects)),
+                ' '.join(map(str, uv3))))
+            if vo != '1':
+                ctx.disagree('FreeSurface:valid', f'FreeSurface({hkl}, {nm}).uvws {uv3} is not a possible outcome ({vo})',
+                             dict(info, impl=uv3))
+                continue
+        # the accepted cell must be compatible with the cut vector in the model too
+        out = ctx.driver.ask('compat %s %s %s' % (cut, ' '.join(map(str, uv3)), cm.frs(np.array(vects))))
+        flag, *dat = out.split()
+        ab, ac, yzn, aa, bb, cc = [float(F(t)) for t in dat]
+        rel = [abs(ab) / math.sqrt(aa * bb), abs(ac) / math.sqrt(aa * cc)] if cut == 'a' else \
+            [abs(yzn) / (aa * math.sqrt(bb * cc))] if cut == 'b' else [0.0]
+        if any(r > 1e-6 for r in rel):
+            ctx.disagree('FreeSurface:refusal', f'FreeSurface({hkl}, {nm}, cut={cut}) accepted a cell the model refuses '
+                         f'(uvws {uv3})', dict(info, impl=uv3))
+            continue
+        # ---- shifts -----------------------------------------------------------------------
+        ci = 'abc'.index(cut)
+        if sf.cutindex != ci:
+            ctx.disagree('FreeSurface:cutindex', f'cutindex {sf.cutindex} for cutboxvector {cut}', info)
+        rpos = sf.rcell.atoms.pos
+        W = float(sf.rcell.box.vects[ci, ci])
+        xs = [float(x) for x in rpos[:, ci]]
+        nd = _numdec(tol)
+        if _layer_margin_ok(xs, W, tol, nd):
+            out = ctx.driver.ask('shifts %d %s %s %s' % (nd, cm.fr(tol), cm.fr(W), cm.frs(xs)))
+            want = cm.unfrs(out.split(';')[0])
+            got = np.asarray(sf.shifts, dtype=float)
+            nshift += 1
+            ctx.stats.case('shifts', (nm, tuple(hkl), cut, st, exact, W), sample={'W': W, 'coords': xs[:12], 'shifts': got[:, ci].tolist()})
+            other = [j for j in range(3) if j != ci]
+            if got.ndim != 2 or got.shape[1] != 3 or len(want) != got.shape[0] or np.abs(got[:, other]).max() != 0.0 \
+                    or not cm.allclose(got[:, ci], want, 1e-12, 1e-9 * W):
+                ctx.disagree('FreeSurface:shifts', f'FreeSurface({hkl}, {nm}, cut={cut}).shifts {got.tolist()} vs model '
+                             f'{[float(w) for w in want]} along the cut', dict(info, coords=xs, W=W))
+                continue
+        # ---- surface() ---------------------------------------------------------------------
+        _correspond_surface(ctx, sf, info, ci, cut, W)
+        nsurf += 1
+        nfault += _correspond_fault(ctx, sf, info, ci, cut, exact)
+    k = 'exact' if exact else 'float'
+    ctx.extra[f'fs_{k}'] = {'shift_lists': nshift, 'refusals_checked': nref, 'undecided_refusals': nund,
+                           'surface_systems': nsurf, 'fault_systems': nfault}
+
+
+def _correspond_surface(ctx, sf, info, ci, cut, W):
+    import numpy as np
+    rng = ctx.rng
+    inpl = lambda: rng.choice([1, 1, 2, 3, -2, (-1, 1), (0, 2)])
+    sizemults = [inpl(), inpl(), inpl()]
+    sizemults[ci] = rng.choice([1, 1, 2, 3, -1, -2, 4])
+    minwidth = rng.choice([None, None, rng.uniform(0.3, 4.5) * W, 2.0 * W])
+    even = rng.random() < 0.4
+    vac = rng.choice([None, None, 0.0, rng.uniform(0.5, 12.0), 8.0, -1.0 if rng.random() < 0.3 else 2.5])
+    nsh = len(sf.shifts)
+    si = rng.randrange(nsh)
+    kw = dict(shiftindex=si, vacuumwidth=vac, minwidth=minwidth, sizemults=list(sizemults), even=even)
+    sinfo = dict(info, surface={k: (list(v) if isinstance(v, list) else v) for k, v in kw.items()})
+    try:
+        system = sf.surface(**kw)
+        err = None
+    except ValueError as e:
+        system, err = None, str(e)
+    ctx.stats.case('surface', (info['crystal'], tuple(info['hkl']), cut, str(kw)), nontrivial=system is not None,
+                   sample={k: str(v) for k, v in kw.items()})
+    q = '-' if minwidth is None else str(int(np.ceil(minwidth / W)))
+    mult = int(ctx.driver.ask('mult %d %s %d' % (sizemults[ci], q, int(even))))
+    rbox = sf.rcell.box
+    vects = rbox.vects.copy()
+    origin = rbox.origin.copy()
+    mults = []
+    for i in range(3):
+        s = mult if i == ci else sizemults[i]
+        lo, hi = (s if isinstance(s, tuple) else ((0, s) if s > 0 else (s, 0)))
+        origin = origin + vects[i] * lo
+        vects[i] = vects[i] * (hi - lo)
+        mults.append(hi - lo)
+    if vac is not None:
+        out = ctx.driver.ask('vac %s %s %s %s' % (cut, cm.fr(vac), cm.frs(vects), cm.frs(origin)))
+    else:
+        out = cm.frs(vects) + ' ' + cm.frs(origin)
+    if system is None:
+        if not out.startswith('err:value'):
+            ctx.disagree('surface:refusal', f'surface({kw}) raised ValueError({err}) but the model accepts', sinfo)
+        sf.surface(shiftindex=si)   # leave a system behind for the fault part
+        return
+    if out.startswith('err'):
+        ctx.disagree('surface:refusal', f'surface({kw}) succeeded, model says {out}', sinfo)
+        return
+    want = cm.unfrs(out)
+    got = list(system.box.vects.ravel()) + list(system.box.origin)
+    scale = float(np.abs(system.box.vects).max())
+    if not cm.allclose(got, want, 1e-12, 1e-10 * scale):
+        ctx.disagree('surface:box', f'surface({kw}) box {got} vs model {[float(w) for w in want]} '
+                     f'(cut multiplier {mult})', sinfo)
+    pbc = [t == '1' for t in ctx.driver.ask('pbc ' + cut).split()]
+    if [bool(x) for x in system.pbc] != pbc:
+        ctx.disagree('surface:pbc', f'surface() pbc {list(system.pbc)} vs model {pbc} for cut {cut}', sinfo)
+    want_n = sf.rcell.natoms * mults[0] * mults[1] * mults[2]
+    if system.natoms != want_n:
+        ctx.disagree('surface:natoms', f'surface({kw}) has {system.natoms} atoms, model {want_n}', sinfo)
+
+
+def _correspond_fault(ctx, sf, info, ci, cut, exact):
+    import numpy as np
+    rng = ctx.rng
+    system = sf.system
+    pos = system.atoms.pos.copy()
+    box = system.box
+    width = float(box.vects[ci, ci])
+    o = float(box.origin[ci])
+    done = 0
+    xs = np.unique(pos[:, ci])
+    for rep in range(2):
+        mode = rng.choice(['rel', 'rel', 'mid', 'onplane', 'default'])
+        kw = {}
+        if mode == 'rel':
+            kw['faultpos_rel'] = rng.randrange(0, 17) / 16
+        elif mode == 'mid' and len(xs) > 1:
+            i = rng.randrange(len(xs) - 1)
+            kw['faultpos_cart'] = float((xs[i] + xs[i + 1]) / 2)
+        elif mode == 'onplane':
+            kw['faultpos_cart'] = float(rng.choice(list(xs)))
+        if 'faultpos_cart' in kw and not (0.0 <= (kw['faultpos_cart'] - o) / width <= 1.0):
+            kw = {}
+        a1 = rng.choice([0.0, 0.5, 1 / 3, 0.25, 1.0, -1.0, 2.0, 0.125])
+        a2 = rng.choice([0.0, 0.5, 2 / 3, 0.75, 1.0, -0.5])
+        oop = rng.choice([None, None, 0.0, 0.3, -0.2])
+        a1c, a2c = np.asarray(sf.a1vect_cart, dtype=float), np.asarray(sf.a2vect_cart, dtype=float)
+        sh = cm.unfrs(ctx.driver.ask('fshift %s %s %s %s %s %s' % (cut, cm.fr(a1), cm.fr(a2), cm.fr(oop or 0.0),
+                                                                 cm.frs(a1c), cm.frs(a2c))))
+        direct = rng.random() < 0.3
+        finfo = dict(info, fault=dict(kw, a1=a1, a2=a2, outofplane=oop, direct=direct))
+        try:
+            if direct:
+                new = sf.fault(faultshift=np.array([float(x) for x in sh]), **kw)
+            else:
+                new = sf.fault(a1=a1, a2=a2, outofplane=oop, **kw)
+        except ValueError as e:
+            ctx.disagree('fault:raises', f'fault({kw}) raised {e}', finfo)
+            continue
+        fp = float(sf.faultpos_cart)
+        if 'faultpos_rel' in kw and abs(fp - (o + kw['faultpos_rel'] * width)) > 1e-12 * max(1.0, abs(width)):
+            ctx.disagree('fault:faultpos', f'faultpos_cart {fp} for faultpos_rel {kw["faultpos_rel"]}', finfo)
+        if not kw and rep == 0 and abs(sf.faultpos_rel - 0.5) > 0:
+            pass
+        line = 'fault %s %s %s %s %s %s' % (cut, ' '.join(str(int(bool(p))) for p in system.pbc), cm.fr(fp),
+                                            ' '.join(cm.fr(x) for x in sh),
+                                            cm.frs(box.vects) + ' ' + cm.frs(box.origin), cm.frs(pos))
+        out = ctx.driver.ask(line)
+        if out.startswith('err'):
+            ctx.disagree('fault:driver', f'model refused fault: {out}', finfo)
+            continue
+        p_s, a_s, m_s = out.split(';')
+        want = cm.unfrs(p_s)
+        above = [t == '1' for t in a_s.split()]
+        mw, mf = [float(x) for x in cm.unfrs(m_s)]
+        done += 1
+        ctx.stats.case('fault', (info['crystal'], tuple(info['hkl']), cut, str(kw), a1, a2, oop, direct),
+                       sample={'natoms': int(system.natoms), 'faultpos_cart': fp, 'on_plane': mf == 0.0,
+                               'shift': [float(x) for x in sh], **{k: float(v) for k, v in kw.items()}})
+        if [bool(x) for x in sf.abovefault] != above:
+            bad = [i for i, (x, y) in enumerate(zip(sf.abovefault, above)) if bool(x) != y]
+            ctx.disagree('fault:above', f'abovefault differs from the model for atoms {bad[:6]} (coordinates '
+                         f'{[float(pos[i, ci]) for i in bad[:6]]}, fault plane at {fp})',
+                         dict(finfo, faultpos_cart=fp, atoms=bad[:6]))
+            continue
+        if mw > 1e-9:
+            got = new.atoms.pos.ravel()
+            scale = float(np.abs(box.vects).max())
+            if not cm.allclose(got, want, 1e-12, 1e-9 * scale):
+                d = np.abs(got - np.array([float(w) for w in want])).reshape(-1, 3).max(axis=1)
+                i = int(np.argmax(d))
+                ctx.disagree('fault:positions', f'fault({kw}, a1={a1}, a2={a2}, outofplane={oop}) moved atom {i} '
+                             f'({pos[i].tolist()}) to {new.atoms.pos[i].tolist()}, model '
+                             f'{[float(w) for w in want[3 * i:3 * i + 3]]}', dict(finfo, atom=i, faultpos_cart=fp))
+    return done
+
+
+def correspond(ctx):  # noqa: F811  (final definition)
+    try:
+        _correspond_tables(ctx)
+        _correspond_fsb(ctx)
+        _correspond_fs(ctx, True)
+        _correspond_fs(ctx, False)
+    finally:
+        _close_pool()
